@@ -45,3 +45,8 @@ package dag
 //@   modifies heap(alloc), ghost obs.meta_calls, ghost obs.meta_err, ghost obs.meta_dag
 //@   ensures obs.meta_calls == old(obs.meta_calls) + 1 && obs.meta_err == err && obs.meta_dag == d
 //@   ensures err == nil ==> d != nil
+
+//@ fn (*DAG).SockAddr(d) (r)
+//@   props C16
+//@   trusted
+//@   pure
